@@ -31,8 +31,10 @@ def run(tier, seed, prop=PROP, profile="core"):
     by_id = {s["id"]: s for s in stimuli}
     for b in res["bad"]:
         s = by_id[b["t"]]
-        rep.violation({"property": prop, "program": s["src"], "definitions": s["defsrc"], "rejected": b["event"], "why": b["why"]},
-                      f"program {s['src'][:300]} ... rejected at {b['why']} {b['i']}: observed {json.dumps(b['event'].get('v'))[:200]}")
+        rep.violation({"property": prop, "program": s["src"], "definitions": s["defsrc"], "rejected": b["event"], "why": b["why"],
+                       "machine_expected": b.get("exp"), "profile": profile, "stimulus": s},
+                      f"program {s['src'][:300]} ... rejected at {b['why']} {b['i']}: observed {json.dumps(b['event'].get('v'))[:200]}, "
+                      f"the machine's next event is {json.dumps(b.get('exp'))[:200]}")
     kinds = set()
     for s in stimuli:
         kinds.update(x.split('"')[0] for x in json.dumps(s["ast"]).split('"k": "')[1:])
@@ -48,3 +50,22 @@ def run(tier, seed, prop=PROP, profile="core"):
                        "same name would shadow the closure's: recorded deviation of the implementation, outside the generated sublanguage)",
                        "return-from / go only to targets inside the same function body"]
     return rep.finish()
+
+
+def replay(path, prop=PROP):
+    """Run the program of a replay file again and judge it with the machine."""
+    payload = json.load(open(path))
+    vdrive = common.build_harness()
+    s = payload["stimulus"]
+    events = pipeline.drive(vdrive, "c01", [s], chunk=1)
+    res = pipeline.accept(SPEC, "CoreTrace", "CoreTrace.cfg", events, shards=1)
+    for e in events:
+        if e.get("ev") != "start":
+            print(json.dumps({k: v for k, v in e.items() if k not in ("src",)})[:300])
+    if res["bad"]:
+        b = res["bad"][0]
+        print(f"VIOLATION property={payload.get('property', prop)} replay={path}")
+        print(f"  rejected at {b['why']} {b['i']}: observed {json.dumps(b['event'].get('v'))[:200]}, the machine's next event is {json.dumps(b.get('exp'))[:300]}")
+        return 1
+    print("accepted")
+    return 0
